@@ -343,7 +343,7 @@ Fixpoint compile_items (e : expr) : list aitem :=
       | _ => compile_items l ++ compile_items r ++ ins here (binop_code op l r)
       end
   | EMatches _ re l r =>
-      match re with
+      match re_const re r with
       | Some p => compile_items l ++ ins here [IMatchesConst p]
       | None => compile_items l ++ compile_items r ++ ins here [IMatches]
       end
@@ -499,7 +499,7 @@ Fixpoint consts_hashable (e : expr) : bool :=
   | ENil _ | EIdent _ _ _ | EInt _ _ | EFloat _ _ | EBool _ _ | EStr _ _ | EPointer _ => true
   | EUnary _ _ x | EProperty _ x _ _ | EClosure _ x => consts_hashable x
   | EBinary _ _ l r | EIndex _ l r | EPair _ l r => consts_hashable l && consts_hashable r
-  | EMatches _ re l r => consts_hashable l && match re with Some _ => true | None => consts_hashable r end
+  | EMatches _ re l r => consts_hashable l && match re_const re r with Some _ => true | None => consts_hashable r end
   | ESlice _ x f t =>
       consts_hashable x && match f with Some y => consts_hashable y | None => true end
       && match t with Some y => consts_hashable y | None => true end
